@@ -295,6 +295,10 @@ type OrderOpt struct {
 // passes through a site of a (through its success edge when opt.Success).
 // Returns the number of b sites checked.
 func (f *Fn) Precedes(r *Rule, a, b *Sites, opt OrderOpt) bool {
+	a = a.WithWrappers()
+	if b.Len() == 0 {
+		b = b.WithWrappers() // the guarded call itself was moved into a helper
+	}
 	key := fmt.Sprintf("%s: %s ≺ %s", f.Name, a.Desc, b.Desc)
 	if opt.Label != "" {
 		key = f.Name + ": " + opt.Label
@@ -385,6 +389,7 @@ func (f *Fn) FollowedByOnSuccess(r *Rule, a, y *Sites, exits *Sites, label strin
 }
 
 func (f *Fn) followedBy(r *Rule, a, y *Sites, exits *Sites, label string, success bool) bool {
+	y = y.WithWrappers()
 	key := fmt.Sprintf("%s: %s ⇒ eventually %s", f.Name, a.Desc, y.Desc)
 	if label != "" {
 		key = f.Name + ": " + label
@@ -747,6 +752,7 @@ func (f *Fn) LoopBodyEntry(s Site) int {
 // AfterEdgesMustPass checks: once one of the edges is taken, a site of s is
 // passed before the function exits or the branching vertex is evaluated again.
 func (f *Fn) AfterEdgesMustPass(r *Rule, edges map[[2]int]bool, s *Sites, label string, exempt ...AtomPred) bool {
+	s = s.WithWrappers()
 	key := f.Name + ": " + label
 	cutE := map[[2]int]bool{}
 	for _, x := range exempt {
